@@ -218,7 +218,7 @@ def obligations(tier, seed):
            grid=[dict(FT=6, SPALEN=2, DEP=0, ST0=a, ST1=b, ST2=c) for a in range(3) for b in range(3) for c in range(3)] +
                 [dict(FT=ft, SPALEN=sp, DEP=1, ST0=a, ST1=b, ST2=c) for (ft, sp) in [(2, 0), (10, 3), (14, 6)] for (a, b, c) in [(0, 0, 0), (1, 0, 0), (1, 1, 0), (2, 0, 0), (0, 1, 1)]],
            quick_grid=[dict(FT=6, SPALEN=2, DEP=0, ST0=1, ST1=1, ST2=0)],
-           reach=["end"], flags=["--slice-formula"], timeout=900, mem_gb=6, **idl),
+           reach=["end"], flags=["--slice-formula"], timeout=2400, mem_gb=6, **idl),
         # ---- obligations that refuted the pinned tree (genuine defects, fixed in /repo: known_findings.json "fixed"); idl_a_implicit_ci_run is an open known finding ----
         Ob("idl_a_flags_argument", func="h_idl_a_gap_flags", desc="two packets of ours with symbolic CI values: the flags "
            "ARGUMENT of every callback equals (DATA_LOST iff a packet failed its check since the last delivery or CI is not the successor of the last delivered CI) | (DEPENDENT "
